@@ -46,21 +46,22 @@ WHAT = {
 
 
 # ------------------------------------------------------------------ cfg / TLC
-def _cfg(ctx, size, dur0, relax="none"):
-    """Write (once) the cfg for (size, lifetime, relaxation) next to the scratch copy of the spec."""
+def _cfg(ctx, size, dur0, relax="none", hosts=5):
+    """Write (once) the cfg for (size, lifetime, relaxation, number of hosts) next to the scratch copy of the spec."""
     d = ctx._spec_dir()
-    name = "DNSCache_trace_s%d%s_%s.cfg" % (size, "d0" if dur0 else "", relax)
+    name = "DNSCache_trace_s%d%s_%s_h%d.cfg" % (size, "d0" if dur0 else "", relax, hosts)
     path = os.path.join(d, name)
     if not os.path.exists(path):
         with open(os.path.join(d, "DNSCache_trace.cfg")) as f:
             txt = f.read()
         txt = re.sub(r"\bSize = \d+", "Size = %d" % size, txt)
+        txt = re.sub(r"Hosts = \{[^}]*\}", "Hosts = {%s}" % ", ".join('"%s"' % c for c in "abcde"[:hosts]), txt)
         txt = txt.replace("ZeroDuration = FALSE", "ZeroDuration = %s" % ("TRUE" if dur0 else "FALSE"))
         txt = txt.replace('Relax = "none"', 'Relax = "%s"' % relax)
         if relax != "none":
             # a weakened design breaks the design's invariants on purpose: they are collected in `viol`, not checked
             txt = re.sub(r"(?m)^INVARIANTS .*$", "INVARIANTS Mark", txt)
-        tmp = path + ".%d" % os.getpid()
+        tmp = path + ".%d.%d" % (os.getpid(), random.getrandbits(30))
         with open(tmp, "w") as f:
             f.write(txt)
         os.replace(tmp, path)
@@ -75,10 +76,10 @@ def _write(ctx, name, lines):
     return path
 
 
-def _search(ctx, lines, size, dur0, relax="none", tag="t", timeout=900):
+def _search(ctx, lines, size, dur0, relax="none", tag="t", timeout=900, hosts=5):
     """TLC depth-first search.  Returns (accepted, first line (1-based) no behaviour consumes, viol names)."""
     path = _write(ctx, "dnstrace_%s_%d.ndjson" % (tag, random.getrandbits(40)), lines)
-    ok, rejected, out = ctx.tlc_trace(MODULE, _cfg(ctx, size, dur0, relax), path, timeout=timeout, dfs=True)
+    ok, rejected, out = ctx.tlc_trace(MODULE, _cfg(ctx, size, dur0, relax, hosts), path, timeout=timeout, dfs=True)
     if ok:
         m = re.search(r"TRACE_VIOL (\[.*?\])", out)
         if not m:
@@ -220,19 +221,28 @@ PRIORITY = ["SizeBound", "ServedFreshAndSequential", "NoCrossHost", "RefinesSequ
 
 def _explained(ctx, run, lines, relax, inv):
     """Does the design weakened by `relax` explain the run?  Returns the broken invariant to report, or None."""
-    ok, _, viol = _search(ctx, lines, run["size"], bool(run["dur0"]), relax=relax, tag="dx_" + relax, timeout=600)
+    try:
+        ok, _, viol = _search(ctx, lines, run["size"], bool(run["dur0"]), relax=relax, tag="dx_" + relax,
+                              timeout=240, hosts=run["hosts"])
+    except MachineryError as e:
+        if "timed out" in str(e):       # the weakened design branches at every store: give up, not explained
+            return None
+        raise
     if not ok or not viol:
         return None
     return inv if inv in viol else [n for n in PRIORITY if n in viol][0]
 
 
 def _diagnose(ctx, run, lines, width, only=None):
-    """A run without a linearization: which weakened design explains it?  Returns (key suffix, weakening)."""
-    modes = [(r, i) for r, i in RELAX if only in (None, r)]
-    res = _par(ctx, [(lambda r=r, i=i: _explained(ctx, run, lines, r, i)) for r, i in modes], width)
-    for (relax, inv), hit in zip(modes, res):
-        if hit:
-            return hit, relax
+    """A run without a linearization: which weakened design explains it?  Returns (key suffix, weakening).
+    The three weakenings that branch rarely are searched first (side by side); storing under another key branches at
+    every store and is searched only when none of them explains the run."""
+    for batch in (RELAX[:3], RELAX[3:]):
+        modes = [(r, i) for r, i in batch if only in (None, r)]
+        res = _par(ctx, [(lambda r=r, i=i: _explained(ctx, run, lines, r, i)) for r, i in modes], width)
+        for (relax, inv), hit in zip(modes, res):
+            if hit:
+                return hit, relax
     return "no-linearization", ""
 
 
